@@ -60,6 +60,7 @@ func (m *omap) find(fr *frame, k value) int {
 }
 
 func (m *omap) lookup(fr *frame, k value) (value, bool) {
+	fr.i.m.mapAccess(fr, m, false)
 	i := m.find(fr, k)
 	if i < 0 {
 		return nil, false
@@ -71,6 +72,7 @@ func (m *omap) insert(fr *frame, k, v value) {
 	if m == nil {
 		panic(targetPanic{iface{fr.i.runtimeErrorString, "assignment to entry in nil map"}})
 	}
+	fr.i.m.mapAccess(fr, m, true)
 	i := m.find(fr, k)
 	if i >= 0 {
 		m.entries[i].val = v
@@ -80,6 +82,7 @@ func (m *omap) insert(fr *frame, k, v value) {
 }
 
 func (m *omap) delete(fr *frame, k value) {
+	fr.i.m.mapAccess(fr, m, true)
 	i := m.find(fr, k)
 	if i < 0 {
 		return
